@@ -242,6 +242,7 @@ class Loops:
                 int_syms = [(a, i) for a, i in int_syms if a not in elim]
         # ---- trial run: discover strides
         closed = {}
+        trial_backs = []
         if for_ctx is not None:
             I.quiet += 1
             try:
@@ -251,6 +252,7 @@ class Loops:
                 backs = self._run_body(body, s0, label, for_ctx)[0]
             finally:
                 I.quiet -= 1
+            trial_backs = backs
             if backs:
                 for a, init in int_syms:
                     d = None
@@ -290,6 +292,8 @@ class Loops:
             for key in keys:
                 base.env[key] = self._subst_val(base.env[key], m)
             int_syms = [(a, i) for a, i in int_syms if a not in closed]
+        if for_ctx is not None and trial_backs and int_syms:
+            self._tile_accs(for_ctx, trial_backs, int_syms, current, sym_name, base)
         # ---- candidate invariants
         cands = []
         lens = self._collect_lens(st, st.frame)
@@ -570,7 +574,72 @@ class Loops:
                     r = s.clone()
                     rests.append(r)
             states = nxt
+            # a sum over elements that are consecutive views of one buffer (tiling ghost fact of the collection):
+            # each element contributes (at most) its own extent, so the total is bounded by / equal to the extent tiled
+            tf = self._ps_tile_facts(states, form, for_ctx)
+            if tf:
+                for s in states + rests:
+                    s.pc.extend(tf)
+                for_ctx.setdefault("exit_facts", []).extend(tf)
         return states, rests
+
+    def _tile_accs(self, for_ctx, trial_backs, int_syms, current, sym_name, base):
+        """accumulators over a collection of consecutive views of one buffer whose every step adds (at most) the extent
+        of the element visited: the running total is bounded by the buffer, and equals the extent tiled at the end"""
+        seq = for_ctx["seq"]
+        while seq[0] in ("copied",):
+            seq = seq[1]
+        if seq[0] != "coll" or not (for_ctx["pos0"].is_const() and for_ctx["pos0"].c == 0):
+            return
+        tinfo = base.tiles.get(seq[1].seq)
+        if not tinfo:
+            return
+        gk = ("ghost-elem", for_ctx["k"][1])
+        for a, init in int_syms:
+            bounded, exact = True, bool(tinfo[3])
+            for sb in trial_backs:
+                sl = self._first_slice(sb.env.get(gk))
+                nv = current(sb).get(sym_name(a))
+                if sl is None or not isinstance(nv, IntV):
+                    bounded = False
+                    break
+                d = nv.l - Lin.atom(a)
+                if not solver.entails(sb.pc, f_and(flit(ge(d, 0)), flit(le(d, sl.length())))):
+                    bounded = False
+                    break
+                if exact and not solver.entails(sb.pc, flit(eq(d, sl.length()))):
+                    exact = False
+            if bounded:
+                for_ctx.setdefault("tile_accs", []).append((a, init.l, tinfo, exact))
+
+    def _ps_tile_facts(self, states, form, for_ctx):
+        seq = for_ctx["seq"]
+        while seq[0] in ("copied",):
+            seq = seq[1]
+        if seq[0] != "coll" or not states:
+            return None
+        tinfo = states[0].tiles.get(seq[1].seq)
+        if not tinfo or not (for_ctx["pos0"].is_const() and for_ctx["pos0"].c == 0):
+            return None
+        K = Lin.atom(for_ctx["k"])
+        pk, pk1, pn = form(K), form(K + 1), form(for_ctx["N"])
+        bounded, exact = True, bool(tinfo[3])
+        for s in states:
+            for s1, v in self.elem_of(s.clone(), seq, K):
+                sl = self._first_slice(v)
+                if sl is None:
+                    return None
+                d = pk1 - pk
+                if not solver.entails(s1.pc, f_and(flit(ge(d, 0)), flit(le(d, sl.length())))):
+                    bounded = False
+                if exact and not solver.entails(s1.pc, flit(eq(d, sl.length()))):
+                    exact = False
+        if not bounded:
+            return None
+        facts = [le(pn, Lin.atom(("len", tinfo[0])))]
+        if exact:
+            facts.append(eq(pn, tinfo[2] - tinfo[1]))
+        return facts
 
     def _run_body(self, body, s0, label, for_ctx):
         """returns (back-edge states, exits [(state, kind, value)])"""
@@ -864,7 +933,7 @@ class Loops:
             seq = itv.seq
             pos0 = itv.pos
 
-            def bind(s0, seq=seq, K=K, pos0=pos0, ref=ref):
+            def bind(s0, seq=seq, K=K, pos0=pos0, ref=ref, kname=kname):
                 res = []
                 for s1, v in self.elem_of(s0, seq, pos0 + K, e):
                     s1 = s1 if s1 is not s0 else s0.clone()
@@ -875,6 +944,11 @@ class Loops:
                         # an abstract sequence (custom iterator): its k-th item is a symbolic value of the item type
                         v = I.symbolic(elem_pat["t"], (), (self.seq_key(seq), (pos0 + K).key()))
                     I.bind(s1, elem_pat, v)
+                    s1.env[("ghost-elem", kname)] = v
+                    for a_, i0_, tinfo_, _ in ctx.get("tile_accs", ()):
+                        sl_ = self._first_slice(v)
+                        if sl_ is not None:
+                            s1.pc.append(le(Lin.atom(a_) - i0_ + sl_.length(), Lin.atom(("len", tinfo_[0]))))
                     res.extend(self.instantiate_forall(s1, seq, pos0 + K))
                 return res
 
@@ -921,6 +995,15 @@ class Loops:
         for c in invs:
             s.pc.append(c)
         s.pc.append(le(0, N))
+        for a_, i0_, tinfo_, exact_ in ctx.get("tile_accs", ()):
+            s.pc.append(le(Lin.atom(a_) - i0_, Lin.atom(("len", tinfo_[0]))))
+            if exact_:
+                s.pc.append(eq(Lin.atom(a_) - i0_, tinfo_[2] - tinfo_[1]))
+        have = set(map(_lit_key, s.pc))
+        for c in ctx.get("exit_facts") or []:
+            if _lit_key(c) not in have:
+                have.add(_lit_key(c))
+                s.pc.append(c)
         # an exhausted by_ref iterator
         if ctx.get("ref") is not None:
             r = ctx["ref"]
@@ -1009,8 +1092,12 @@ class Loops:
         hav = None
         cases = []
         katom = ctx["k"]
+        import os
+        dbg = os.environ.get("RTCP_DEBUG_PS")
         for sb in backs:
             nv = current(sb).get(sym_name(a))
+            if dbg:
+                print("PS?", a, "->", nv, file=__import__("sys").stderr)
             if not isinstance(nv, IntV):
                 return None
             delta = nv.l - Lin.atom(a)
